@@ -430,8 +430,15 @@ def make_discriminator(opts, reg):
             reg.shared_discr = {}
         if key in reg.shared_discr:
             return reg.shared_discr[key]
+    extra = {}
+    if d.get("tagger") in ("one", "two"):
+        # variant_tagger_fn: "t_" + the class's term name (and "u_" + name as a second tag for "two")
+        def tagger(cls, _reg=reg, _two=d.get("tagger") == "two"):
+            n = _reg.term_name.get(cls, cls.__name__)
+            return ["t_" + n, "u_" + n] if _two else "t_" + n
+        extra["variant_tagger_fn"] = tagger
     obj = Discriminator(field=d.get("field"), include_subtypes=bool(d.get("include_subtypes", False)),
-                        include_supertypes=bool(d.get("include_supertypes", False)))
+                        include_supertypes=bool(d.get("include_supertypes", False)), **extra)
     if key is not None:
         reg.shared_discr[key] = obj
     return obj
